@@ -20,3 +20,7 @@ func verifC09FileHistory() {
 	n := 5 + 3*verifTier()
 	VerifC09History(verifOpenFile(n), NewMemDisk(uint64(n)), n, 2+verifTier())
 }
+
+func verifC09FileGlobalHistory() {
+	VerifC09GlobalHistory(verifOpenFile(2), NewMemDisk(3), 2, 3, 3+verifTier())
+}
